@@ -57,7 +57,7 @@ class StopShrink(BaseException):
     """Aborts Hypothesis once the shrink budget is used up."""
 
 
-class CaseTimeout(Exception):
+class CaseTimeout(BaseException):  # BaseException: the many 'except Exception' handlers around calls into the library must not swallow it
     """The code under test used more CPU time than the per-case watchdog allows (non-termination)."""
 
 
